@@ -360,11 +360,11 @@ theorem connOK_init (c : Cfg) : ConnOK c {} true := by
   constructor <;> intro _ <;> simp
 
 /-- **the abandoned-stream rule is sound for every client operation** (repaired rule: `_drained` + leak tracking) -/
-theorem connOK_use {c : Cfg} (hd : c.ruleDrained = true) (hl : c.trackLeak = true) {x x' : Conn} {sy : Bool} {op : UseOp}
+theorem connOK_use {c : Cfg} (hd : c.ruleDrained = true) (hl : c.trackLeak = true) (hi : c.trackInterrupt = true) {x x' : Conn} {sy : Bool} {op : UseOp}
     (h : ConnOK c x sy) (hu : useConn x op = some x') : ConnOK c x' (useSynced x sy op) := by
-  obtain ⟨xo, xl, xs⟩ := x
+  obtain ⟨xo, xl, xs, xi⟩ := x
   unfold ConnOK at *
-  cases op <;> cases xo <;> cases xl <;> cases xs <;> simp [useConn] at hu <;> (try subst hu) <;>
+  cases op <;> cases xo <;> cases xl <;> cases xs <;> cases xi <;> simp [useConn, leakNow] at hu <;> (try subst hu) <;>
     cases sy <;> simp_all [abandoned, useSynced]
 
 /-! ### ownership -/
@@ -576,6 +576,7 @@ structure Good (c : Cfg) : Prop where
   zero : c.zeroDiscards = true
   drained : c.ruleDrained = true
   leak : c.trackLeak = true
+  intr : c.trackInterrupt = true
 
 structure Inv (c : Cfg) (s : St) : Prop where
   own : Own s.idle s.nextW s.pc
@@ -1053,7 +1054,7 @@ theorem inv_step {c : Cfg} (hg : Good c) {s s' : St} {l : Label} (h : Inv c s) (
             have : w' ≠ w := fun e => hw' (by rw [e]; rfl)
             simp [upd, this]
           · simp only [PcOK, upd_same]
-            exact connOK_use hg.drained hg.leak hok hx
+            exact connOK_use hg.drained hg.leak hg.intr hok hx
         · cases hst
       · cases hst
     · cases hst
@@ -1107,7 +1108,7 @@ theorem inv_step {c : Cfg} (hg : Good c) {s s' : St} {l : Label} (h : Inv c s) (
       · cases hst
     · cases hst
 
-theorem good_ofGen (m : Nat) (to : Int) : Good (Cfg.ofGen m to) := ⟨rfl, rfl, rfl, rfl, rfl⟩
+theorem good_ofGen (m : Nat) (to : Int) : Good (Cfg.ofGen m to) := ⟨rfl, rfl, rfl, rfl, rfl, rfl⟩
 
 theorem inv_reachable {m : Nat} {to : Int} {s : St} (h : (ts (Cfg.ofGen m to)).Reachable s) : Inv (Cfg.ofGen m to) s :=
   TS.invariant_of_step (ts (Cfg.ofGen m to)) (Inv (Cfg.ofGen m to)) (inv_init _)
@@ -1126,13 +1127,13 @@ def view (c : Cfg) (s : St) : Spec.View :=
 
 /-- the structural facts about the source that the model relies on, as extracted on this run: LIFO pop / right append /
 left eviction with a strict comparison / `>=` capacity and expiry tests, the `max_idle == 0` branch, the abandoned-stream
-rule over `_drained` with leak tracking, every `_idle` access under the lock, the health check before the hand-out, the
+rule over `_drained` with leak and interrupt tracking, every `_idle` access under the lock, the health check before the hand-out, the
 unlocked `_closed` write before `close()` takes the lock, and the client-side bookkeeping -/
 theorem C32_shape :
     Gen.Pool.shapeBorrow = true ∧ Gen.Pool.shapeReturn = true ∧ Gen.Pool.shapeEvict = true ∧ Gen.Pool.shapeReap = true ∧
     Gen.Pool.shapeClose = true ∧ Gen.Pool.shapeLocking = true ∧ Gen.Pool.shapePooled = true ∧ Gen.Pool.shapeClient = true ∧
     Gen.Pool.evictCmp = .ge ∧ Gen.Pool.reapCmp = .ge ∧ Gen.Pool.olderCmp = .lt ∧ Gen.Pool.zeroDiscards = true ∧
-    Gen.Pool.ruleDrained = true ∧ Gen.Pool.trackLeak = true := by decide
+    Gen.Pool.ruleDrained = true ∧ Gen.Pool.trackLeak = true ∧ Gen.Pool.trackInterrupt = true := by decide
 
 /-- the pool lock is a mutex in the model: a thread is inside one of the lock-protected sections exactly when it owns the
 lock, so two threads are never inside at once (this is what lets each section's computation be one step) -/
